@@ -24,7 +24,7 @@ package zkencelg
 //@ func (*Proof).Verify
 //@   use bits
 //@   nopanic[C05]
-//@   modifies hstate(hash)
+//@   modifies hstate(hash), wlog(hash.h)
 //@   requires hash != nil && hash.h != nil && true && public.A != nil && public.B != nil && public.X != nil && pkok(public.Prover) && pkvals(public.Prover) && pkbig(public.Prover) && pedok(public.Aux) && (p != nil ==> shaped(p))
 
 //@ func challenge
